@@ -13,6 +13,11 @@
 //
 // action: {"k":"noop|early|modh|modreq|gen|modresp|retry","h":[[name,value],..],"st":int,"b":body,"p":path,"ho":host,"q":query,"rm":[names]}
 //
+//	c07 conc <cases.json> <out.ndjson> <workers>   the routing cases encoded by concurrent goroutines
+//
+// In both modes the encoded actions of every transaction are retained and decoded only after all later transactions were
+// encoded ("stable": false when they changed after the call returned).
+//
 // One NDJSON event per case: {"ev":side,"id":n,"via":..,"seq":[actions as given / as observed],"out":{decoded SPOE variables}}.
 // No expectation is computed here: the events are judged by TLC against specs/c07_actions/ActionsP.tla.
 package main
@@ -21,8 +26,11 @@ import (
 	"encoding/json"
 	"fmt"
 	"os"
+	"runtime"
 	"sort"
+	"strconv"
 	"strings"
+	"sync"
 
 	"lunar/engine/actions"
 	"lunar/engine/config"
@@ -357,7 +365,7 @@ func copyHeaders(h map[string]string) map[string]string {
 	return m
 }
 
-func viaRouting(c Case) vh.Ev {
+func viaRouting(c Case) (vh.Ev, action.Actions) {
 	if c.Side == "req" {
 		list := make([]actions.ReqLunarAction, len(c.Seq))
 		for i, a := range c.Seq {
@@ -365,7 +373,7 @@ func viaRouting(c Case) vh.Ev {
 		}
 		args := lunarMessages.OnRequest{ID: "t", SequenceID: "t", Method: "GET", URL: "api.test/x", Path: "/x",
 			Headers: map[string]string{"host": "api.test"}}
-		return vh.Ev{"ev": "req", "id": c.ID, "via": c.Via, "h": c.H, "seq": c.Seq, "out": decode(routing.VerifGetSPOEReqActions(args, list))}
+		return vh.Ev{"ev": "req", "id": c.ID, "via": c.Via, "h": c.H, "seq": c.Seq}, routing.VerifGetSPOEReqActions(args, list)
 	}
 	list := make([]actions.RespLunarAction, len(c.Seq))
 	for i, a := range c.Seq {
@@ -373,7 +381,7 @@ func viaRouting(c Case) vh.Ev {
 	}
 	args := lunarMessages.OnResponse{ID: "t", SequenceID: "t", Method: "GET", URL: "api.test/x", Status: 200,
 		Headers: map[string]string{"content-type": "text/plain"}}
-	return vh.Ev{"ev": "resp", "id": c.ID, "via": c.Via, "h": c.H, "seq": c.Seq, "out": decode(routing.VerifGetSPOERespActions(args, list))}
+	return vh.Ev{"ev": "resp", "id": c.ID, "via": c.Via, "h": c.H, "seq": c.Seq}, routing.VerifGetSPOERespActions(args, list)
 }
 
 // real remedy plugins, fresh per case
@@ -431,7 +439,7 @@ func scoped(i int, r Remedy, accounts map[sharedConfig.AccountID]sharedConfig.Ac
 	return config.ScopedRemedy{Scope: utils.ScopeEndpoint, Method: "GET", NormalizedURL: fmt.Sprintf("api.test/x%d", i), Remedy: rem}
 }
 
-func viaRunner(c Case) vh.Ev {
+func viaRunner(c Case) (vh.Ev, action.Actions) {
 	accounts := map[sharedConfig.AccountID]sharedConfig.Account{}
 	rems := make([]config.ScopedRemedy, len(c.Remedies))
 	for i, r := range c.Remedies {
@@ -450,48 +458,130 @@ func viaRunner(c Case) vh.Ev {
 			Headers: copyHeaders(c.Headers), Body: c.Body}
 		res, err := runner.VerifRunOnRequest(args, rems, p, accounts)
 		if err != nil {
-			return vh.Ev{"ev": "error", "id": c.ID, "via": c.Via, "error": err.Error()}
+			return vh.Ev{"ev": "error", "id": c.ID, "via": c.Via, "error": err.Error()}, nil
 		}
-		return vh.Ev{"ev": "req", "id": c.ID, "via": c.Via, "seq": observed, "remedies": c.Remedies, "out": decode(res.ReqToSpoeActions())}
+		return vh.Ev{"ev": "req", "id": c.ID, "via": c.Via, "seq": observed, "remedies": c.Remedies}, res.ReqToSpoeActions()
 	}
 	args := lunarMessages.OnResponse{ID: "t", SequenceID: "t", Method: "GET", URL: "api.test/x", Status: c.Status,
 		Headers: copyHeaders(c.Headers), Body: c.Body}
 	res, err := runner.VerifRunOnResponse(args, rems, p)
 	if err != nil {
-		return vh.Ev{"ev": "error", "id": c.ID, "via": c.Via, "error": err.Error()}
+		return vh.Ev{"ev": "error", "id": c.ID, "via": c.Via, "error": err.Error()}, nil
 	}
-	return vh.Ev{"ev": "resp", "id": c.ID, "via": c.Via, "seq": observed, "remedies": c.Remedies, "out": decode(res.RespToSpoeActions())}
+	return vh.Ev{"ev": "resp", "id": c.ID, "via": c.Via, "seq": observed, "remedies": c.Remedies}, res.RespToSpoeActions()
+}
+
+func normalize(c *Case) {
+	for i := range c.Seq {
+		if c.Seq[i].H == nil {
+			c.Seq[i].H = [][2]string{}
+		}
+		if c.Seq[i].Rm == nil {
+			c.Seq[i].Rm = []string{}
+		}
+	}
+	if c.Seq == nil {
+		c.Seq = []Act{}
+	}
+}
+
+// one encoded transaction whose SPOE actions are retained and read only after later transactions were encoded
+type pending struct {
+	ev    vh.Ev
+	acts  action.Actions
+	early string
+}
+
+func (p *pending) finish() vh.Ev {
+	if p.ev["ev"] == "error" {
+		return p.ev
+	}
+	out := decode(p.acts)
+	p.ev["out"] = out
+	p.ev["stable"] = key(out) == p.early // false: the actions handed back changed after the call returned
+	return p.ev
+}
+
+// run: the cases one after the other.  The encoded actions of every transaction are retained (as the SPOE worker does until
+// it has written the reply) and decoded only when the whole batch has been encoded: what is judged is what the proxy would
+// read after later transactions were handled.
+func run(cases []Case, tr *vh.Trace) {
+	all := make([]*pending, 0, len(cases))
+	for _, c := range cases {
+		normalize(&c)
+		cur.enter(c.H)
+		var p pending
+		switch c.Via {
+		case "routing":
+			p.ev, p.acts = viaRouting(c)
+		case "runner":
+			p.ev, p.acts = viaRunner(c)
+		default:
+			vh.Die("unknown via %q", c.Via)
+		}
+		p.early = key(decode(p.acts))
+		all = append(all, &p)
+	}
+	for _, p := range all {
+		tr.Add(p.finish())
+	}
+}
+
+// conc: `workers` goroutines encode concurrently (routing cases only, fresh actions per case); worker w takes the cases
+// w, w+workers, ... and reads its retained results when it is done.  Every transaction is judged on its own.
+func conc(cases []Case, tr *vh.Trace, workers int) {
+	results := make([][]*pending, workers)
+	start := make(chan struct{})
+	var wg sync.WaitGroup
+	for w := 0; w < workers; w++ {
+		wg.Add(1)
+		go func(w int) {
+			defer wg.Done()
+			<-start
+			for i := w; i < len(cases); i += workers {
+				c := cases[i]
+				var p pending
+				p.ev, p.acts = viaRouting(c)
+				p.ev["worker"] = w
+				p.early = key(decode(p.acts))
+				results[w] = append(results[w], &p)
+				runtime.Gosched()
+			}
+		}(w)
+	}
+	close(start)
+	wg.Wait()
+	evs := make([]vh.Ev, len(cases))
+	for w := 0; w < workers; w++ {
+		for k, p := range results[w] {
+			evs[w+k*workers] = p.finish()
+		}
+	}
+	for _, e := range evs {
+		tr.Add(e)
+	}
 }
 
 func main() {
 	vh.Quiet()
-	if len(os.Args) != 4 || os.Args[1] != "run" {
-		vh.Die("usage: c07 run <cases.json> <out.ndjson>")
+	if len(os.Args) < 4 || (os.Args[1] != "run" && os.Args[1] != "conc") {
+		vh.Die("usage: c07 run <cases.json> <out.ndjson> | c07 conc <cases.json> <out.ndjson> <workers>")
 	}
 	var cases []Case
 	vh.ReadJSON(os.Args[2], &cases)
 	tr := vh.NewTrace()
-	for _, c := range cases {
-		for i := range c.Seq {
-			if c.Seq[i].H == nil {
-				c.Seq[i].H = [][2]string{}
+	if os.Args[1] == "run" {
+		run(cases, tr)
+	} else {
+		workers, _ := strconv.Atoi(os.Args[4])
+		for i := range cases {
+			normalize(&cases[i])
+			if cases[i].Via != "routing" || cases[i].H != 0 {
+				vh.Die("conc: routing cases without history only")
 			}
-			if c.Seq[i].Rm == nil {
-				c.Seq[i].Rm = []string{}
-			}
 		}
-		if c.Seq == nil {
-			c.Seq = []Act{}
-		}
-		cur.enter(c.H)
-		switch c.Via {
-		case "routing":
-			tr.Add(viaRouting(c))
-		case "runner":
-			tr.Add(viaRunner(c))
-		default:
-			vh.Die("unknown via %q", c.Via)
-		}
+		cur.enter(0)
+		conc(cases, tr, workers)
 	}
 	tr.Write(os.Args[3])
 }
